@@ -27,7 +27,21 @@ res() { echo "$1" | tee -a $log; }
 git apply $src/patch.diff >>$log 2>&1 || { res "RESULT $name patch-does-not-apply"; exit 1; }
 go build ./... >>$log 2>&1 || { res "RESULT $name does-not-build"; git checkout -q -- .; exit 1; }
 suite=ok
-go test -vet=off -count=1 -timeout 25m ./... >>$log 2>&1 || suite=FAIL
+go test -vet=off -count=1 -timeout 25m ./... >$log.suite 2>&1 || suite=FAIL
+cat $log.suite >>$log
+if [ "$suite" = FAIL ]; then
+  # a load-sensitive timing spec (pkg/clock) fails now and then on a busy machine with or without the change:
+  # packages that failed are re-run alone, twice at most
+  pk=$(grep -E '^FAIL\s+github.com' $log.suite | awk '{print $2}' | sed 's#github.com/oauth2-proxy/oauth2-proxy/v7#.#' | sort -u)
+  if [ -n "$pk" ]; then
+    suite=ok
+    for q in $pk; do
+      go test -vet=off -count=1 $q >>$log 2>&1 || go test -vet=off -count=1 $q >>$log 2>&1 || suite=FAIL
+    done
+    [ "$suite" = ok ] && echo "suite: failed packages ($pk) passed when re-run alone" >>$log
+  fi
+fi
+rm -f $log.suite
 cp $demo $dir/zz_demo_test.go
 with=pass; go test -vet=off -count=1 -run "$runpat" ./$dir/ >>$log 2>&1 || with=fail
 git checkout -q -- . 
